@@ -105,7 +105,11 @@ def one_program(seed, i):
 
     special = i % 16 == 11      # stratum: comparison programs on NaN / inf / signed zeros (stable across seeds: 1 in 16)
     try:
-        p = scriptgen.generate_special(rng) if special else scriptgen.generate(rng, n_stmts=rng.choice([3, 5, 8]))
+        # strata stable across seeds: 1 program in 8 is built around a for loop, 1 in 8 around a while loop, each with the rare
+        # structural forms (variable killed under an else-less if, late update of a carried-only variable, state rebound to an
+        # outer value, ...) switched on
+        focus = {3: "for", 6: "while"}.get(i % 8)
+        p = scriptgen.generate_special(rng) if special else scriptgen.generate(rng, n_stmts=rng.choice([3, 5, 8]), focus=focus)
     except scriptgen.Bail:
         return {"status": "gen_bail", "events": {"gen_bail": 1}}
     if special:
